@@ -123,9 +123,6 @@ Theorem parse_render_stage3 : forall cpp e,
   frag3 e = true -> wf e = true -> labels_ok e = true -> parse cpp (render e) = Some (tree_of e).
 Proof.
   intros cpp e Hf Hw Hl. destruct (main3 cpp e Hf Hw Hl) as [HS _].
-  apply (parse_of_Sx cpp _ _ (rank e) HS); [apply rank_le| |].
-  - apply prep_no_q. apply alltok_app; [apply frag3_no_q; exact Hf|apply alltok_one; reflexivity].
-  - unfold decl_like. apply no_rplp_not_decl_like; [exact I|].
-    cbn [hd_is semi snd is_rp]. rewrite rplp_app, (frag3_no_rplp e Hf). cbn [rplp orb].
-    rewrite andb_false_r. reflexivity.
+  apply (parse_of_Sx cpp _ _ (rank e) HS); [apply rank_le|].
+  apply prep_no_q. apply alltok_app; [apply frag3_no_q; exact Hf|apply alltok_one; reflexivity].
 Qed.
